@@ -154,6 +154,12 @@ func NewMachine(prog *ssa.Program) *Machine {
 
 func (m *Machine) inconclusiveF(format string, args ...interface{}) {
 	s := fmt.Sprintf(format, args...)
+	if i := strings.Index(s, "\n"); i > 0 {
+		s = s[:i]
+	}
+	if len(s) > 600 {
+		s = s[:600]
+	}
 	for _, x := range m.inconclusive {
 		if x == s {
 			return
